@@ -14,7 +14,9 @@ def check_c14(tier, replay):
     th = tier == "thorough"
     try:
         if replay:
-            raise MachineryError("C14 violations list the racing program; re-run the check with the same VERIF_SEED")
+            # the programs are enumerated by TLC; the seed recorded in the replay file selects the sampled triples and the schedules' random choices
+            v.write_evidence = False
+            os.environ["VERIF_SEED"] = str(json.load(open(replay)).get("replay", {}).get("seed", vlib.seed()))
         ind, outd = scr.sub("in"), scr.sub("out")
         ppath = os.path.join(ind, "race_progs.ndjson")
         n = 0
